@@ -64,6 +64,10 @@ CHECKS = {
    technique="symbolic execution (z3-backed SymFile, struct model) of Elf(), Elf.loadsegment, the linux32/linux64 OS loaders and MemoryMap on synthesised ELF images with symbolic segment geometry (p_offset, p_vaddr, p_filesz, p_memsz) and symbolic payload; per path SMT proof that the memory byte at a quantified address equals the file byte (0 beyond p_filesz), pc == e_entry, and instruction fetch at the entry decodes the file's bytes",
    text="Bounded model checking of the loader: every (offset, vaddr, filesz, memsz) combination in the stated windows and every payload is covered per page size (16/64/4096) for one segment and two segments, on x86-64 and i386; each path proves the memory image byte-for-byte against the file mapping through a universally quantified in-segment address. Raw (shellcode) images likewise.",
    note="trusted: z3, symx/symstruct models (validated by concrete re-execution of path models); outside: PE / Mach-O / HEX / SREC loaders, relocation slots and dynamic linking, TLS, stack, ASLR, unloadable images (negative page-aligned file offset)"),
+ "C17": dict(level="model_checking", engine="E2", design="DESIGN.md section 4 C17",
+   technique="symbolic execution (z3-backed bytes) of cpu.disassemble with the real hooks, focused in turn on every shipped spec and unfocused on short inputs: a path ending in an exception is a violation for its whole path condition; two solver witnesses of every path are pushed through rendering (each syntax), pickling and icore.__call__",
+   text="Bounded model checking of decode totality per cpu module/mode/spec (all inputs of length maxlen matching the spec's fixed bits; all inputs of length 0..3), plus exploration of the post-decode stages on solver witnesses of every explored path. Violations are keyed by the failing call site (cpu, mnemonic, stage / innermost amoco frame) and replayed concretely.",
+   note="trusted: z3, symx proxies and SymDict; register selectors realized under a cap of 2; stage (b) is exploration on witnesses, not a bounded proof; amoco has several hundred genuine crashes here, each listed individually in known_findings.json (generated from a thorough run): anything not listed is reported"),
 }
 
 NA_REASON = "check not built yet (construction in progress)"
